@@ -68,7 +68,13 @@ class _RedisConsumer(ConsumerT):
         await asyncio.gather(*rejects)
 
     async def consume(self) -> tuple[RoutingKeyT, str, ParametersT]:
-        return await self.queue.get()
+        while True:
+            msg = await self.queue.get()
+            # a message may have expired while it was waiting in the local buffer
+            if self.category == MessageCategory.NORMAL and msg[2].is_overdue:
+                await self.broker.nack(msg[0])
+                continue
+            return msg
 
     async def backgroud_consume(self) -> None:
         while True:
@@ -88,7 +94,9 @@ class _RedisConsumer(ConsumerT):
                 await asyncio.sleep(self.POLLING_WAIT)
                 continue
             key, _, params = msg
-            if params.is_overdue:
+            # only normal consumption dead-letters expired messages:
+            # the dead and delayed categories hand out what they find
+            if self.category == MessageCategory.NORMAL and params.is_overdue:
                 await self.broker.nack(key)
                 continue
             return msg
